@@ -516,6 +516,13 @@ theorem run_padding (cfg p : Packetizer) (hc : SameCfg cfg p) (hv : AbsValid p) 
       exact ih'
     | enableAbs id => simpa [Packetizer.run, Packetizer.step, paddingOk] using ih'
 
+/-! ### the parts of the domain predicate -/
+
+theorem wf_parts {cfg : Packetizer} {ops : List PkOp} (h : wf cfg ops = true) :
+    64 ≤ cfg.mtu.toNat ∧ cfg.pt.toNat < 128 ∧ AbsValid cfg ∧ ops.all opWf = true := by
+  simp only [wf, Bool.and_eq_true, decide_eq_true_eq, Bool.or_eq_true, beq_iff_eq] at h
+  exact ⟨h.1.1.1, h.1.1.2, h.1.2, h.2⟩
+
 /-! ### c06_ts in closed form -/
 
 /-- the packetizer after a history -/
